@@ -605,14 +605,15 @@ pub fn run(args: &Args, mon: &mut Mon) -> (String, Vec<&'static str>) {
     }
 
     // 1. values: round trips + corpus of valid text forms
-    let n_values: u64 = if thorough { 200_000 } else { 20_000 };
+    let scale = args.param_u64("scale", 1);
+    let n_values: u64 = if thorough { 200_000 * scale } else { 20_000 * scale };
     let mut corpus: Vec<String> = Vec::new();
     {
         let mut r = Rng::fork(args.seed, 15);
         for i in 0..n_values {
             let mut local = Vec::new();
             values(&mut r, mon, &mut local);
-            if i < if thorough { 1500 } else { 250 } {
+            if i < if thorough { 1500 * scale } else { 250 * scale } {
                 corpus.extend(local);
             }
         }
@@ -654,7 +655,7 @@ pub fn run(args: &Args, mon: &mut Mon) -> (String, Vec<&'static str>) {
     //    missing brackets
     {
         let mut r = Rng::fork(args.seed, 1515);
-        let n_alt = if thorough { 50_000 } else { 5_000 };
+        let n_alt = if thorough { 50_000 * scale } else { 5_000 * scale };
         for _ in 0..n_alt {
             let ia = gen_ia(&mut r);
             let isd = ia.isd().to_u16();
